@@ -341,18 +341,23 @@ def greaseScript (s : Sys) : List GAns × Bool :=
     | none => (.ok, false)
     | some t => if t ≥ 23 then (.ok, false) else if t < 9 then (.pending, false) else (.pending, true)
   let sendA : GAns := if s.gfSend.isSome then .err else .ok
-  let finA : GAns := if s.gfFinish.isSome then .err else .ok
-  let full : List GAns × Bool :=
+  -- `poll_finish`: an error, or (`P`) `Pending` once and then `Ok` (also within the same poll)
+  let finA : List GAns :=
+    match s.gfFinish with
+    | some f => if f.kind == .pend then [.pending, .ok] else [.err]
+    | none => [.ok]
+  let pre : List GAns × Bool :=
     match s.gs.step with
     | .notStarted =>
       -- an armed fault answers before the stream credit is looked at
-      if s.gfOpen.isSome then ([.err], false)
-      else if canOpen then let (a, u) := ready s.rc.wc; ([.ok, sendA, a, finA], u) else ([], false)
-    | .started => let (a, u) := ready s.gGranted; ([sendA, a, finA], u)
-    | .dataPrepared => let (a, u) := ready s.gGranted; ([a, finA], u)
-    | .dataSent => ([finA], false)
-    | .finished => ([], false)
-  (full.1.takeWhile (· != .pending), full.2)
+      if s.gfOpen.isSome then ([.err, .pending], false)
+      else if canOpen then let (a, u) := ready s.rc.wc; ([.ok, sendA, a], u) else ([.pending], false)
+    | .started => let (a, u) := ready s.gGranted; ([sendA, a], u)
+    | .dataPrepared => let (a, u) := ready s.gGranted; ([a], u)
+    | .dataSent => ([], false)
+    | .finished => ([.pending], false)
+  let cut := pre.1.takeWhile (· != .pending)
+  (if cut.length == pre.1.length then cut ++ finA else cut, pre.2)
 
 /-- the fault that made the grease machine give up in this poll (it stops at the call that
     answered the error: `send_grease_stream_flag = false`, the step stays) -/
@@ -366,15 +371,21 @@ def greaseFired (s : Sys) (after : Grease) : Option FaultOp.Fault :=
     | .finished => none
   else none
 
+def isPend (f : Option FaultOp.Fault) : Bool :=
+  match f with
+  | some x => x.kind == .pend
+  | none => false
+
 /-- is `f` a fault on one of the grease stream's calls?  `ou3` = the fourth stream the endpoint
     opens (after control, encoder, decoder); `sd`/`pr`/`pf` on the grease stream's id. -/
 def armGrease (s : Sys) (gsid : Nat) (f : FaultOp.Fault) : Option Sys :=
   if f.skip != 0 then none else
   match f.site, f.target with
-  | .ou, some 3 => some { s with gfOpen := s.gfOpen.or (some f) }
-  | .sd, some sid => if sid == gsid then some { s with gfSend := s.gfSend.or (some f) } else none
-  | .pr, some sid => if sid == gsid then some { s with gfReady := s.gfReady.or (some f) } else none
-  | .pf, some sid => if sid == gsid then some { s with gfFinish := s.gfFinish.or (some f) } else none
+  -- one fault per call site (a second one is not modelled)
+  | .ou, some 3 => if s.gfOpen.isNone then some { s with gfOpen := some f } else none
+  | .sd, some sid => if sid == gsid && s.gfSend.isNone then some { s with gfSend := some f } else none
+  | .pr, some sid => if sid == gsid && s.gfReady.isNone then some { s with gfReady := some f } else none
+  | .pf, some sid => if sid == gsid && s.gfFinish.isNone then some { s with gfFinish := some f } else none
   | _, _ => none
 
 def setStops (streams : List UStream) (stops : List (Nat × Nat)) : List UStream :=
@@ -422,13 +433,17 @@ def pollDriver (s : Sys) : Sys × Option String :=
   let uc := if opened then s.uc.map (· - 1) else s.uc
   let gGranted := if opened then s.rc.wc else s.gGranted
   let greaseUsed := s.gs.flag && (d.acts.length > 0 || d.gs.step != s.gs.step)
+  -- a `P` fault on `poll_finish` is used up when the grease machine, polled in this poll, got to that call
+  let pendFired := isPend s.gfFinish && s.gs.flag && d.acts.length > 0 &&
+    (d.gs.step == .dataSent || d.gs.step == .finished) && s.gs.step != .finished
   let closed := match d.res with
     | some e => if wasDead then s.closed else s.closed ++ [e]
     | none => s.closed
   let s1 : Sys := { s with conn := d.conn, gs := d.gs, streams := streams3, fs := fs1, uc := uc, gGranted := gGranted,
                            wtOrder := wtOrder, closed := closed, panic := s.panic || pnc,
                            unsupported := s.unsupported || (gUnsup && greaseUsed),
-                           gFired := s.gFired ++ (greaseFired s d.gs).toList }
+                           gFired := s.gFired ++ (greaseFired s d.gs).toList ++ (if pendFired then s.gfFinish.toList else []),
+                           gfFinish := if pendFired then none else s.gfFinish }
   let res : Option String :=
     match d.res with
     | some e => some s!"err:{e}"
